@@ -166,3 +166,14 @@ Proof.
            {| lw_id := 2; lw_sync := true; lw_app := WlAOk; lw_sync_ok := true |} ].
   cbv zeta. exists 2%N. vm_compute. split; [left; reflexivity | intros []].
 Qed.
+
+(* the user-visible statement: whatever the environment does, every acknowledged write of the
+   session is returned by log recovery, in order, and recovery returns at most one record more *)
+Theorem latch_no_acknowledged_loss os :
+  let r := wl_run wl_step wl_init os in
+  exists extra, wl_recovered (wl_logf (fst r)) = wl_acked_ids os (snd r) ++ extra /\ (length extra <= 1)%nat.
+Proof.
+  cbv zeta. destruct (latch_session os) as [_ [H | [_ [i H]]]].
+  - exists []. rewrite app_nil_r. split; [exact H | simpl; lia].
+  - exists [i]. split; [exact H | simpl; lia].
+Qed.
